@@ -5,6 +5,7 @@ import (
 	"os"
 	"reflect"
 	"sort"
+	"strings"
 	"sync"
 	"syscall"
 	"time"
@@ -244,6 +245,23 @@ func runC04(o Opts) error {
 			out := codec.Dump(buf, " ... ")
 			if n > 0 && len(out) < 2*n {
 				s.Fail(map[string]any{"op": "dump", "buf_hex": hexs(buf), "length": n}, "codec.Dump lost bytes")
+			}
+			if i <= 80 || i%50 == 0 { // a sample through the model: the bytes printed on each row
+				rows := []string{}
+				for _, line := range strings.Split(strings.TrimRight(out, "\n"), "\n") {
+					if line == "" {
+						continue
+					}
+					f := strings.Fields(strings.TrimPrefix(line, " ... "))
+					bs := []byte{}
+					for _, tok := range f[1:] {
+						var v int
+						fmt.Sscanf(tok, "%02x", &v)
+						bs = append(bs, byte(v))
+					}
+					rows = append(rows, coqBytes(bs))
+				}
+				s.Add("C4Dump "+coqBytes(buf)+" "+coqList(rows), map[string]any{"op": "dump", "buf_hex": hexs(buf), "length": n}, "dump", n > 0)
 			}
 		}()
 		dumps++
